@@ -2,7 +2,7 @@ SPECIFICATION Spec
 CONSTANTS
   MaxRuns = 3
   MaxRun = 2
-  MaxRows = 6
+  MaxRows = 5
   MaxPages = 3
 INVARIANTS L_Normalise L_AndThen L_Intersection L_Union L_SplitOff L_Offset L_Limit L_OffsetLimit L_Trim L_FromFilters L_ScanRanges L_Expand
 CHECK_DEADLOCK FALSE
